@@ -2,7 +2,7 @@
    sumbool/sumor map to OCaml's; nat/N/positive stay Coq's inductives.  No Extract
    Constant / Extract Inductive directives of our own. *)
 From Coq Require Import ExtrOcamlBasic.
-From EB Require Import Base ListVec Diff Head Skip Tail Filter Sort PollLoop OVec Obs ObsSpec Chain.
+From EB Require Import Base ListVec Diff Head Skip Tail Filter Sort PollLoop OVec Obs ObsSpec Chain ObsConc.
 Extraction Language OCaml.
 Extraction "model.ml"
   Diff.dmap Diff.apply Diff.ok_in Diff.apply_all Diff.apply_all_ok Diff.spec_nth Diff.oob
@@ -15,4 +15,5 @@ Extraction "model.ml"
   OVec.ovec_new OVec.ovec_mutate OVec.txn_mutate OVec.txn_begin OVec.txn_rollback OVec.txn_drop OVec.txn_commit
   OVec.subscribe OVec.drop_sub OVec.poll_sub OVec.drop_vec OVec.for_each OVec.cur_values OVec.rx_cnt
   Obs.obs_new Obs.step ObsSpec.s_new ObsSpec.sstep
-  Chain.head_into_parts Chain.tail_into_parts Chain.skip_into_parts.
+  Chain.head_into_parts Chain.tail_into_parts Chain.skip_into_parts
+  ObsConc.cstep ObsConc.release ObsConc.is_done.
